@@ -126,8 +126,8 @@ func runPhase(c Case, d int, dir string, prior []vlib.BatchSpec, hadSnapshot boo
 	rec.HadSnapshot = hadSnapshot
 
 	opt := vlib.ImageOpts{}
-	if vlib.Thorough() {
-		opt.AllPrefixesUpTo = 16 << 10
+	if vlib.Thorough() && d == 0 {
+		opt.AllPrefixesUpTo = 16 << 10 // every prefix length of every file of the first phase
 	}
 	images := vlib.BuildImages(rec.Trace, rec.Blobs, opt)
 	ids := m.SortedIDs()
@@ -228,7 +228,7 @@ func prop(c Case, st *stats) *vlib.Failure {
 }
 
 func TestC03Recovery(t *testing.T) {
-	vlib.Check(t, 5, 60, func(rt *rapid.T) {
+	vlib.Check(t, 5, 10, func(rt *rapid.T) {
 		c := gen(rt)
 		var st stats
 		f := vlib.Guard("run", func() *vlib.Failure { return prop(c, &st) })
